@@ -192,6 +192,9 @@ def strip_bonding_descriptors(fragment_string):
                                                                      prev_node,
                                                                      rings)
             smile += part_str
+            # a bond symbol in front of a ring marker belongs to the ring bond
+            # and not to a bonding descriptor following the marker
+            current_order = None
         elif token in '] H . - = # $ : + -':
             smile += token
         # deal with ez isomers
